@@ -52,7 +52,13 @@ impl Policy for StubPolicy {
         }
     }
     fn install(_e: &Env, _p: Val, _r: ContextRule, _a: Address) {}
-    fn uninstall(_e: &Env, _r: ContextRule, _a: Address) {}
+    /// collaborator fault: a policy scripted to trap also traps when it is uninstalled — removing it (or its rule) from the
+    /// account must work all the same (the library calls uninstall on a best-effort basis)
+    fn uninstall(e: &Env, r: ContextRule, _a: Address) {
+        if e.storage().instance().get(&(symbol_short!("trap"), r.id)).unwrap_or(false) {
+            panic!("scripted uninstall trap");
+        }
+    }
 }
 
 mod edv {
